@@ -62,14 +62,16 @@ type c03variant struct {
 	delays   bool
 	slowWire bool
 	maxpend  int
+	procOps  bool
 }
 
 var c03variants = []c03variant{
-	{"gated", true, false, false, 0},
-	{"free", false, false, false, 0},
-	{"gated+delays", true, true, false, 0},
-	{"free+delays+slowwire", false, true, true, 0},
-	{"gated+slowwire+maxpend4", true, false, true, 4},
+	{"gated", true, false, false, 0, false},
+	{"free", false, false, false, 0, false},
+	{"gated+delays", true, true, false, 0, false},
+	{"free+delays+slowwire", false, true, true, 0, false},
+	{"gated+slowwire+maxpend4", true, false, true, 4, false},
+	{"gated+delays+procops", true, true, false, 0, true},
 }
 
 func c03Cases(tier string, seed int64) []core.Case {
@@ -322,7 +324,7 @@ func expectedReply(m *wire.Msg, plan *script.Plan, e script.Event, fidType uint8
 
 func c03Run(seed int64, n int, orders [][]int, v c03variant, dotu bool) core.Result {
 	var res core.Result
-	cfg := Config{Dotu: dotu, Msize: 8192, Maxpend: v.maxpend, TracePoints: false}
+	cfg := Config{Dotu: dotu, Msize: 8192, Maxpend: v.maxpend, TracePoints: false, ProcOps: v.procOps}
 	s := NewSess(cfg)
 	c := s.Dial()
 	r := core.NewRand(seed, fmt.Sprintf("c03run/%d/%s/%v", n, v.name, dotu))
